@@ -615,8 +615,24 @@ def op_model(op: dict) -> dict:
             tgt = int(op["target"])
             if tgt not in passes:
                 passes[tgt] = S["vc"].ConvertVersionPass(target_version=tgt)
+            def _vnames(mm):
+                ns = set()
+                for g_ in (mm.graph, *mm.functions.values()):
+                    ns.update(v.name for v in g_.inputs if v.name)
+                    for nd in S["ir"].traversal.RecursiveGraphIterator(g_):
+                        ns.update(v.name for v in nd.inputs if v is not None and v.name)
+                        ns.update(v.name for v in nd.outputs if v.name)
+                return ns
+
+            import re as _re
+
+            before = _vnames(m)
             r = passes[tgt](m)
             out = ser_ir(r.model) + b"|modified=%d" % int(bool(r.modified))
+            after = _vnames(r.model)
+            res["names_before"] = sorted(before)
+            res["new_val_names"] = sorted((n for n in after - before if _re.fullmatch(r"val_\d+", n)), key=lambda n: int(n[4:]))
+            res["other_new_names"] = sorted(n for n in after - before if not _re.fullmatch(r"val_\d+", n))
         elif kind == "convert":
             m = ir.serde.deserialize_model(proto)
             S["vc"].convert_version(m, int(op["target"]), fallback=bool(op.get("fallback", False)))
